@@ -67,6 +67,11 @@ Proof. vm_compute. reflexivity. Qed.
 Theorem C06_code_order : dispatch_order.
 Proof. exact dispatch_order_holds. Qed.
 
+(* ... and these are all the paths: every list of decisions long enough to reach the end of any path through the
+   skeleton yields one of the model's traces *)
+Theorem C06_code_paths_complete : dispatch_paths_complete.
+Proof. exact dispatch_paths_complete_holds. Qed.
+
 Print Assumptions C06_inflight_exact.
 Print Assumptions C06_at_most_one_handler_per_key.
 Print Assumptions C06_dispatch_iff.
@@ -75,3 +80,4 @@ Print Assumptions C06_exactly_once.
 Print Assumptions C06_reply_goes_back_authentic.
 Print Assumptions C06_oracle.
 Print Assumptions C06_code_order.
+Print Assumptions C06_code_paths_complete.
